@@ -120,11 +120,11 @@ META.update({
   note="Inner stream is the abstract model (any real reader/writer refines it by C01/C02). Unary and copy obligations are bounded by the 256-bit model window. eprintln! output of the Dbg wrappers is not observed.",
   design="4/C14"),
  "C15": dict(
-  technique="contract harnesses on CodesStats::{update, update_many, add/+=/sum, best_code, default} (Kani/CBMC) + native concrete run of the dispatch wrapper",
+  technique="contract harnesses on CodesStats::{update, update_many, add/+=/sum, best_code, default} (Kani/CBMC) + rely/guarantee obligations on the wrapper's critical sections (Mutex::lock stubbed by an interference model) + native concrete run of the dispatch wrapper",
   category="proof",
   text="Proof for symbolic statistics values and a symbolic observed value: update adds len_<code>(value) to every tracked total with the documented index-to-parameter map and one to the count; merge operators are field-wise sums (so merge = union, by linearity); best_code returns a tracked code with the minimum total and that total. "
        "update_many is bounded (value grid, symbolic multiplicity). The concurrent part is decided by rely/guarantee on the lock (c15.shared.*: Mutex::lock stubbed by an interference model that stores an arbitrary value at every acquisition; every critical section is the identity or exactly update(value), exactly one the update); mutual exclusion of std::sync::Mutex is trusted, schedules are not enumerated.",
-  note="Quick tier proves the <3,4,3,3,3>-parameter instance, thorough the default <10,..> instance (best_code for the default instance may exceed the time limit and is then reported undecided, exit 2). Thread interleavings are an assumption (Kani has no threads).",
+  note="Quick tier proves the <3,4,3,3,3>-parameter instance; the thorough tier adds the default <10,20,10,10,10> instance for merge, best_code, default and update_many on two grid values (its symbolic update exceeds one hour of CBMC and is covered by concrete native obligations, labelled bounded). Thread schedules are not enumerated: the wrapper's critical sections are verified under arbitrary interference, mutual exclusion of std::sync::Mutex is trusted.",
   design="4/C15"),
  "C16": dict(
   technique="full enumeration contract harnesses for identifier conversions and equality classes (Kani/CBMC) + native concrete obligations for Display/FromStr",
